@@ -432,3 +432,196 @@ theorem handler_only_affects_recovered (c : Cfg) (b : Bool) (s : S) (l : Label) 
   all_goals rfl
 
 end TQ
+
+/-! ## The workers as threads
+
+`TQ.Step` keeps the pool as a counter (`running.length + reporting < workers` guards `take`).  Here the pool is what it is in
+the code: `workers` goroutines, each in the loop of `work()`
+
+    for task := range tasks {            -- idle: blocked on the receive
+        q.runTask(task)                  -- running t: inside task(), under `defer errs.Recovery(handler)`
+        ready <- true                    -- reporting: blocked until the send completes
+    }
+
+with exception semantics for panics: a panic in `task()` ends the task and unwinds to the deferred call of `runTask`
+(`unwinding t`); `errs.Recovery` calls `recover()`, which stops the panic, and — if a handler is installed — calls the
+handler (`handling t`), a step of its own, under the guard `defer Recovery(nil)`; a handler that panics unwinds to that
+guard (`unwindingH t`); then `runTask` returns and the worker is at `ready <- true`.  A panic that reaches the top of a
+goroutine without being recovered terminates it (`dead`; in Go it terminates the process).  The dispatcher is a separate
+thread that never executes a task.  Guards of the worker rules read only the state of that worker thread and the
+channels; the fields `q.running` / `q.reporting` are bookkeeping that `Lemmas/TaskQueueW.lean` relates to the threads.
+
+`Variant` describes programs that differ from the code, for contrast theorems: without the recover in `runTask`, with a
+dispatcher that runs backlog tasks itself while draining (seeded/ind4-c15-a), with tasks that call `Submit` on their own
+queue (`nest t` times; outside the domain of the liveness theorems).  `code` is the program as it is. -/
+namespace TQW
+open TQ
+
+inductive W where
+  | idle
+  | running (t k : Nat)   -- executing task t, which still has k Submit calls on its own queue to make (0 in the domain)
+  | unwinding (t : Nat)   -- task t panicked; the panic is propagating to the deferred call in `runTask`
+  | handling (t : Nat)    -- `recover()` returned the value, the recovery handler is about to be called
+  | unwindingH (t : Nat)  -- the handler panicked; propagating to the guard `defer Recovery(nil)`
+  | reporting             -- `runTask` has returned; at `ready <- true`
+  | dead                  -- the goroutine was terminated by an unrecovered panic
+deriving DecidableEq, BEq, Hashable, Repr
+
+structure Variant where
+  recovers : Bool := true          -- `runTask` defers `errs.Recovery`, and `Recovery` calls `recover()`
+  dispatcherRuns : Bool := false   -- while draining, the dispatcher runs a backlog task itself when `tasks` is full
+  nest : Nat → Nat := fun _ => 0   -- number of `Submit` calls task t makes on its own queue before it ends
+
+/-- the program as it is -/
+def code : Variant := {}
+
+structure TS where
+  q : S := {}
+  ws : List W := []
+  hcalls : List Nat := []        -- recovery-handler calls, newest first
+  dexec : Option Nat := none     -- task being executed by the DISPATCHER thread (never in the code)
+deriving DecidableEq, BEq, Hashable, Repr
+
+def init (c : Cfg) : TS := { ws := List.replicate c.workers .idle }
+
+/-- the shared part runs with the abstract handler record switched off: handler calls are steps of their own here -/
+def noH (c : Cfg) : Cfg := { c with handler := false }
+
+def isWorker : Label → Bool
+  | .take | .finish _ | .report => true
+  | _ => false
+
+/-- tasks being executed, by whichever thread -/
+def runningOf : List W → List Nat
+  | [] => []
+  | .running t _ :: r => t :: runningOf r
+  | _ :: r => runningOf r
+def executing (s : TS) : List Nat := runningOf s.ws ++ s.dexec.toList
+
+inductive TLabel where
+  | q (l : Label)            -- a submitter, Shutdown or dispatcher rule of `TQ.next`
+  | take (i : Nat) | ret (i : Nat) | panic (i : Nat) | recoverH (i : Nat) | recoverN (i : Nat) | die (i : Nat)
+  | handlerRet (i : Nat) | handlerPanic (i : Nat) | guardRecover (i : Nat) | report (i : Nat) | nestedSubmit (i : Nat)
+  | dispStart | dispEnd
+deriving DecidableEq, BEq, Hashable, Repr
+
+/-- the executable one-step function of the threaded model -/
+def tnext (v : Variant) (c : Cfg) (s : TS) : TLabel → Option TS
+  | .q l => if isWorker l = true then none else (next (noH c) s.q l).map fun q' => { s with q := q' }
+  | .take i =>
+    match s.ws[i]?, s.q.tq with
+    | some .idle, t :: rest => some { s with q := doTake s.q t rest, ws := s.ws.set i (.running t (v.nest t)) }
+    | _, _ => none
+  | .ret i =>
+    match s.ws[i]? with
+    | some (.running t 0) => if t ∈ s.q.pan then none else some { s with q := doFinish false s.q t, ws := s.ws.set i .reporting }
+    | _ => none
+  | .panic i =>
+    match s.ws[i]? with
+    | some (.running t 0) => if t ∈ s.q.pan then some { s with q := doFinish false s.q t, ws := s.ws.set i (.unwinding t) } else none
+    | _ => none
+  | .recoverH i =>
+    match s.ws[i]? with
+    | some (.unwinding t) => if v.recovers = true ∧ c.handler = true then some { s with ws := s.ws.set i (.handling t) } else none
+    | _ => none
+  | .recoverN i =>
+    match s.ws[i]? with
+    | some (.unwinding _) => if v.recovers = true ∧ c.handler = false then some { s with ws := s.ws.set i .reporting } else none
+    | _ => none
+  | .die i =>
+    match s.ws[i]? with
+    | some (.unwinding _) => if v.recovers = false then some { s with ws := s.ws.set i .dead } else none
+    | _ => none
+  | .handlerRet i =>
+    match s.ws[i]? with
+    | some (.handling t) => some { s with ws := s.ws.set i .reporting, hcalls := t :: s.hcalls }
+    | _ => none
+  | .handlerPanic i =>
+    match s.ws[i]? with
+    | some (.handling t) => some { s with ws := s.ws.set i (.unwindingH t), hcalls := t :: s.hcalls }
+    | _ => none
+  | .guardRecover i =>
+    match s.ws[i]? with
+    | some (.unwindingH _) => some { s with ws := s.ws.set i .reporting }
+    | _ => none
+  | .report i =>
+    match s.ws[i]? with
+    | some .reporting => if s.q.ready < c.workers then some { s with q := doReport s.q, ws := s.ws.set i .idle } else none
+    | _ => none
+  | .nestedSubmit i =>
+    match s.ws[i]? with
+    | some (.running t (k + 1)) =>
+      if s.q.shut = 0 ∧ s.q.inq.length < c.inCap then some { s with q := doSubmit s.q false, ws := s.ws.set i (.running t k) }
+      else none
+    | _ => none
+  | .dispStart =>
+    match s.q.pc with
+    | .dr i =>
+      match s.q.backlog[i]? with
+      | some b =>
+        if v.dispatcherRuns = true ∧ s.dexec = none ∧ 1 < c.workers ∧ s.q.tq.length = c.workers then
+          some { s with dexec := some b, q := { s.q with started := s.q.started ++ [b] } }
+        else none
+      | none => none
+    | _ => none
+  | .dispEnd =>
+    match s.dexec, s.q.pc with
+    | some b, .dr i =>
+      some { s with dexec := none, q := { s.q with finished := b :: s.q.finished, processed := s.q.processed + 1, pc := .dr (i + 1) } }
+    | _, _ => none
+
+/-- the labels that could fire: the non-worker labels of `TQ`, and one of each worker label per thread -/
+def tcandidates (s : TS) : List TLabel :=
+  ((TQ.candidates s.q).filter fun l => !isWorker l).map .q
+  ++ (List.range s.ws.length).flatMap (fun i =>
+      [.take i, .ret i, .panic i, .recoverH i, .recoverN i, .die i, .handlerRet i, .handlerPanic i, .guardRecover i,
+       .report i, .nestedSubmit i])
+  ++ [.dispStart, .dispEnd]
+
+def tenabled (v : Variant) (c : Cfg) (s : TS) : List TLabel := (tcandidates s).filter fun l => (tnext v c s l).isSome
+
+/-- the threaded protocol as a relation -/
+inductive TStep (v : Variant) (c : Cfg) : TS → TS → Prop
+  | other (s : TS) (l : Label) (q' : S) (hl : isWorker l = false) (h : next (noH c) s.q l = some q') :
+      TStep v c s { s with q := q' }
+  | take (s : TS) (i t : Nat) (rest : List Nat) (hi : s.ws[i]? = some .idle) (hq : s.q.tq = t :: rest) :
+      TStep v c s { s with q := doTake s.q t rest, ws := s.ws.set i (.running t (v.nest t)) }
+  | ret (s : TS) (i t : Nat) (hi : s.ws[i]? = some (.running t 0)) (hp : t ∉ s.q.pan) :
+      TStep v c s { s with q := doFinish false s.q t, ws := s.ws.set i .reporting }
+  | panic (s : TS) (i t : Nat) (hi : s.ws[i]? = some (.running t 0)) (hp : t ∈ s.q.pan) :
+      TStep v c s { s with q := doFinish false s.q t, ws := s.ws.set i (.unwinding t) }
+  | recoverH (s : TS) (i t : Nat) (hi : s.ws[i]? = some (.unwinding t)) (hv : v.recovers = true) (hh : c.handler = true) :
+      TStep v c s { s with ws := s.ws.set i (.handling t) }
+  | recoverN (s : TS) (i t : Nat) (hi : s.ws[i]? = some (.unwinding t)) (hv : v.recovers = true) (hh : c.handler = false) :
+      TStep v c s { s with ws := s.ws.set i .reporting }
+  | die (s : TS) (i t : Nat) (hi : s.ws[i]? = some (.unwinding t)) (hv : v.recovers = false) :
+      TStep v c s { s with ws := s.ws.set i .dead }
+  | handlerRet (s : TS) (i t : Nat) (hi : s.ws[i]? = some (.handling t)) :
+      TStep v c s { s with ws := s.ws.set i .reporting, hcalls := t :: s.hcalls }
+  | handlerPanic (s : TS) (i t : Nat) (hi : s.ws[i]? = some (.handling t)) :
+      TStep v c s { s with ws := s.ws.set i (.unwindingH t), hcalls := t :: s.hcalls }
+  | guardRecover (s : TS) (i t : Nat) (hi : s.ws[i]? = some (.unwindingH t)) :
+      TStep v c s { s with ws := s.ws.set i .reporting }
+  | report (s : TS) (i : Nat) (hi : s.ws[i]? = some .reporting) (hr : s.q.ready < c.workers) :
+      TStep v c s { s with q := doReport s.q, ws := s.ws.set i .idle }
+  | nestedSubmit (s : TS) (i t k : Nat) (hi : s.ws[i]? = some (.running t (k + 1))) (h1 : s.q.shut = 0)
+      (h2 : s.q.inq.length < c.inCap) :
+      TStep v c s { s with q := doSubmit s.q false, ws := s.ws.set i (.running t k) }
+  | dispStart (s : TS) (i b : Nat) (hp : s.q.pc = .dr i) (hb : s.q.backlog[i]? = some b) (hv : v.dispatcherRuns = true)
+      (hd : s.dexec = none) (hw : 1 < c.workers) (hf : s.q.tq.length = c.workers) :
+      TStep v c s { s with dexec := some b, q := { s.q with started := s.q.started ++ [b] } }
+  | dispEnd (s : TS) (i b : Nat) (hd : s.dexec = some b) (hp : s.q.pc = .dr i) :
+      TStep v c s { s with dexec := none,
+                           q := { s.q with finished := b :: s.q.finished, processed := s.q.processed + 1, pc := .dr (i + 1) } }
+
+inductive TReachable (v : Variant) (c : Cfg) : TS → Prop
+  | init : TReachable v c (init c)
+  | step (s s' : TS) : TReachable v c s → TStep v c s s' → TReachable v c s'
+
+def trunLabels (v : Variant) (c : Cfg) : TS → List TLabel → Option TS
+  | s, [] => some s
+  | s, l :: ls => match tnext v c s l with
+    | some s' => trunLabels v c s' ls
+    | none => none
+
+end TQW
